@@ -198,10 +198,11 @@ package mint
 //@   tags C15
 //@   safety C06
 //@   requires minv(m)
-//@   loop range(blindedMessages) invariant 0 <= i && i <= len(blindedMessages) && len(outputs) == len(signatures) && len(outputs) <= i && (forall j :: 0 <= j && j < len(outputs) ==> db.sig[outputs[j].B_] && signatures[j].Amount == db.sigrow[outputs[j].B_].Amount && signatures[j].C_ == db.sigrow[outputs[j].B_].C_ && signatures[j].Id == db.sigrow[outputs[j].B_].Id && signatures[j].DLEQ != nil && signatures[j].DLEQ.E == db.sigrow[outputs[j].B_].E && signatures[j].DLEQ.S == db.sigrow[outputs[j].B_].S && (exists k :: 0 <= k && k < i && outputs[j] == blindedMessages[k]))
+//@   loop range(blindedMessages) invariant 0 <= i && i <= len(blindedMessages) && len(outputs) == len(signatures) && len(outputs) <= i && (forall j :: 0 <= j && j < len(outputs) ==> db.sig[outputs[j].B_] && signatures[j].Amount == db.sigrow[outputs[j].B_].Amount && signatures[j].C_ == db.sigrow[outputs[j].B_].C_ && signatures[j].Id == db.sigrow[outputs[j].B_].Id && signatures[j].DLEQ != nil && signatures[j].DLEQ.E == db.sigrow[outputs[j].B_].E && signatures[j].DLEQ.S == db.sigrow[outputs[j].B_].S && (exists k :: 0 <= k && k < i && outputs[j] == blindedMessages[k])) && (forall k :: 0 <= k && k < i && db.sig[blindedMessages[k].B_] ==> (exists j :: 0 <= j && j < len(outputs) && outputs[j] == blindedMessages[k]))
 //@   ensures @paired [C15] err == nil ==> len(r0) == len(r1)
 //@   ensures @signedonly [C15] err == nil ==> (forall j :: 0 <= j && j < len(r0) ==> db.sig[r0[j].B_] && r1[j].Amount == db.sigrow[r0[j].B_].Amount && r1[j].C_ == db.sigrow[r0[j].B_].C_ && r1[j].Id == db.sigrow[r0[j].B_].Id && r1[j].DLEQ != nil && r1[j].DLEQ.E == db.sigrow[r0[j].B_].E && r1[j].DLEQ.S == db.sigrow[r0[j].B_].S)
 //@   ensures @fromrequest [C15] err == nil ==> (forall j :: 0 <= j && j < len(r0) ==> (exists k :: 0 <= k && k < len(blindedMessages) && r0[j] == blindedMessages[k]))
+//@   ensures @complete [C15] err == nil ==> (forall k :: 0 <= k && k < len(blindedMessages) && db.sig[blindedMessages[k].B_] ==> (exists j :: 0 <= j && j < len(r0) && r0[j] == blindedMessages[k]))
 //@   ensures @frame [C15] db.sig == old(db.sig) && db.sigrow == old(db.sigrow)
 
 // A-INV16: the totals kept by the store stay below 2^63 (sqlite cannot even
